@@ -107,7 +107,7 @@ def dyadic(rng, lo, hi, bits=4):
 U_CHOICES = (1.0, 1.0, 1.0625, 1.5, 2.0, 1 + 2.0 ** -20, 1.25, 1.015625, 0.75, 0.9375)  # u < 1: polling a super-majority with share > 1/2
 
 
-def gen_cfg(rng, combo=None, finite=None, n_max=12, allow_not_random=True, u=None, t=None):
+def gen_cfg(rng, combo=None, finite=None, n_max=12, allow_not_random=True, u=None, t=None, allow_default_eta=False):
     """A configuration inside the documented parameter ranges of its (test, estimator/bet)."""
     test, estim, bet = combo if combo else rng.choice(COMBOS)
     if u is None:
@@ -118,7 +118,7 @@ def gen_cfg(rng, combo=None, finite=None, n_max=12, allow_not_random=True, u=Non
     elif estim == "optimal_comparison" and rng.random() < 0.1:
         u = rng.choice((0.9375, 0.75, 1.0))
     if t is None:
-        t = 0.5 if rng.random() < 0.7 else rng.choice((0.25, 0.375, 0.625, 0.75, 0.125))
+        t = 0.5 if rng.random() < 0.7 else rng.choice((0.25, 0.375, 0.625, 0.75, 0.125, 0.875))
         if t >= u:
             t = 0.5
     if test in ("kaplan_markov", "kaplan_wald"):
@@ -161,6 +161,11 @@ def gen_cfg(rng, combo=None, finite=None, n_max=12, allow_not_random=True, u=Non
         kw["c_grapa_grow"] = rng.choice((0, 0, 1, 10))
     cfg = {"test": test, "estim": estim, "bet": bet, "u": u, "N": N, "t": t,
            "random_order": random_order, "kw": kw}
+    if allow_default_eta and "eta" in kw and rng.random() < 0.2:
+        # the caller relies on the constructor's default alternative (midway between the null mean and the bound)
+        del kw["eta"]
+        cfg["default_eta"] = True
+        return cfg   # (built with the bound it is used with: the default is computed at construction)
     if rng.random() < 0.25:
         cfg["u_built"] = rng.choice((1.0, 2.0, 1.0, u * 2, max(t + 2.0 ** -6, u / 2)))
     if N != "inf" and rng.random() < 0.25:
